@@ -22,7 +22,7 @@ SCOPES = ['local', 'global']
 ASSUME = [
     'git config semantics as stated at the top of coq/Sys/GitCfg.v (set never fails inside a repository; --unset / --remove-section / value query fail on a missing key/section; an unscoped query sees repository-over-global); compared with real git on every transition of every run',
     'configuration keys are single-valued and lower-case; values carry no surrounding blanks (git would normalise them)',
-    'commands are run from the top of a work tree (cwd holds .git); --system scope is outside the property and not modelled',
+    'commands are run from the top of a work tree (cwd holds .git -- a directory, or the "gitdir:" file of a linked worktree / submodule / --separate-git-dir checkout); repository-scope commands run in a bare repository or outside any repository are outside the property (only "nothing foreign is touched" is judged there, the model is not consulted); --system scope is outside the property and not modelled',
     'attributes files are UTF-8 text; the global attributes file is the one git itself resolves (core.attributesfile, else $XDG_CONFIG_HOME/git/attributes, else ~/.config/git/attributes) -- nbdime.utils.locate_gitattributes is not translated, its result is compared with the file real git reads in the tie',
     'python process semantics: an uncaught exception ends the command with a non-zero status, main() returning 0/None is status 0',
     'the translator tools/gen/gen_gitcfg.py and the comparison code of this check',
@@ -64,24 +64,43 @@ def rule_driver(line):
             if (a + '=jupyternotebook') in t[1:]: return d
     return None
 
-def attr_rel(sc, attrloc):
-    if sc == 'local': return 'repo/.gitattributes'
+# kinds of checkout a command can be run in (the runner builds them): where cwd is and where the repository's config file is,
+# relative to the sandbox.  In FILE_KINDS `.git` is a file ("gitdir: ..."), as git itself creates it; in NOTREE_KINDS cwd is not
+# the top of a work tree, so repository-scope commands are outside the property's space there (global-scope ones are not).
+WORK_REL = {'plain': 'repo', 'worktree': 'wt', 'separate': 'sep', 'submodule': 'super/sub', 'bare': 'bare.git', 'norepo': 'norepo'}
+CFG_REL = {'plain': 'repo/.git/config', 'worktree': 'wtmain/.git/config', 'separate': 'sepgit/config',
+           'submodule': 'super/.git/modules/sub/config', 'bare': 'bare.git/config', 'norepo': 'norepo/<no repository configuration>'}
+FILE_KINDS = ['worktree', 'separate', 'submodule']
+NOTREE_KINDS = ['bare', 'norepo']
+
+def kind_of(case_or_init):
+    return case_or_init.get('init', case_or_init).get('kind', 'plain')
+
+def in_space(c, kind):
+    """False for a repository-scope command run where there is no work tree at cwd (bare repository, no repository): git has
+    no repository attributes file there (and outside a repository `git config` itself fails), so only the 'touches nothing
+    foreign' legs of the property are judged for it"""
+    return not (kind in NOTREE_KINDS and c['scope'] == 'local')
+
+def attr_rel(sc, attrloc, kind='plain'):
+    if sc == 'local': return WORK_REL[kind] + '/.gitattributes'
     return {'xdg': 'xdg/git/attributes', 'home': 'home/.config/git/attributes', 'custom': 'custom/attrs'}[attrloc]
 
-def cfg_rel(sc):
-    return 'repo/.git/config' if sc == 'local' else 'home/.gitconfig'
+def cfg_rel(sc, kind='plain'):
+    return CFG_REL[kind] if sc == 'local' else 'home/.gitconfig'
 
 def protected(key):
     return split_key(key)[0] not in SECTION.values() and key not in PROMPT.values()
 
 # ------------------------------------------------------------------ T2: the property on real observations
-def judge_step(B, A, c, status, attrloc):
+def judge_step(B, A, c, status, attrloc, kind='plain'):
     """violations of the property by one executed command: list of (kind, detail)"""
     out = []
+    inside = in_space(c, kind)
     sc = c['scope']; osc = 'global' if sc == 'local' else 'local'
     tools = tools_of(c)
     changed_files = sorted(f for f in set(B['files']) | set(A['files']) if B['files'].get(f) != A['files'].get(f))
-    allowed_files = {cfg_rel(sc), attr_rel(sc, attrloc)}
+    allowed_files = {cfg_rel(sc, kind), attr_rel(sc, attrloc, kind)}
     word = 'enable' if c['enable'] else 'disable'
     for f in changed_files:
         if f not in allowed_files:
@@ -89,7 +108,7 @@ def judge_step(B, A, c, status, attrloc):
     if A['cfg']['other'] != B['cfg']['other']:
         out.append((word + '-touches-unexpected-config-source', {'before': B['cfg']['other'], 'after': A['cfg']['other']}))
     if c['enable']:
-        if status != 'ok':
+        if status != 'ok' and inside:
             out.append(('enable-fails', {'status': status}))
         for s in SCOPES:
             b, a = cfgmap(B, s), cfgmap(A, s)
@@ -118,7 +137,7 @@ def judge_step(B, A, c, status, attrloc):
                 seen.append(d)
         a = cfgmap(A, sc)
         for d in tools:
-            if d not in DRIVER_ATTR: continue
+            if d not in DRIVER_ATTR or not inside: continue
             why = None
             if ROUTE_KEY[d] not in a: why = 'no %s in the %s configuration' % (ROUTE_KEY[d], sc)
             elif A['check_attr'].get(DRIVER_ATTR[d]) != 'jupyternotebook': why = 'git check-attr %s -- x.ipynb says %r' % (DRIVER_ATTR[d], A['check_attr'].get(DRIVER_ATTR[d]))
@@ -155,10 +174,10 @@ def judge_case(case, res):
     obs, st = res['obs'], res['status']
     cmds = case['cmds']
     for i, c in enumerate(cmds):
-        for kind, det in judge_step(obs[i], obs[i + 1], c, st[i], case['init'].get('attrloc', 'xdg')):
+        for kind, det in judge_step(obs[i], obs[i + 1], c, st[i], case['init'].get('attrloc', 'xdg'), kind_of(case)):
             out.append((kind, i, det))
         if c['enable'] and i > 0 and cmds[i - 1] == c and case.get('probe', {}).get(str(i)):
-            if not same_state(obs[i], obs[i + 1]) or st[i] != 'ok':
+            if not same_state(obs[i], obs[i + 1]) or (st[i] != 'ok' and in_space(c, kind_of(case))):
                 out.append(('enable-not-idempotent', i, {'after_first': strip_obs(obs[i]), 'after_second': strip_obs(obs[i + 1]), 'status': st[i]}))
     return out
 
@@ -306,6 +325,52 @@ def lookalike_inits(r, n_drawn):
                      'att': {sc: ATT_VARIANTS['nbdime'], osc: None}, 'attrloc': 'xdg'}, 'lookalike-sections-with-own:%s' % sc, SCOPES))
     return out
 
+# ---- kinds-of-checkout family: the same configurations and commands, run where git's own tooling puts `.git` as a FILE
+# (linked worktree, --separate-git-dir checkout, submodule) and where cwd is no work tree at all (bare repository, plain
+# directory).  Everything above runs in a `git init` directory, where "cwd/.git exists", "is a directory", "holds the config
+# file" and "is the git dir" all coincide.
+FOREIGN_CFG = [['merge.tool', 'meld'], ['diff.guitool', 'kdiff3'], ['mergetool.prompt', 'true'], ['difftool.prompt', 'true'],
+               ['diff.other.command', 'otherdiff'], ['merge.conflictstyle', 'diff3'], ['mergetool.meld.trustexitcode', 'true']]
+OWN_CFG = [['diff.jupyternotebook.command', 'git-nbdiffdriver diff'], ['merge.jupyternotebook.driver', 'git-nbmergedriver merge %O %A %B %L %P'],
+           ['merge.jupyternotebook.name', 'jupyter notebook merge driver'], ['merge.tool', 'nbdime'], ['diff.guitool', 'nbdime'],
+           ['difftool.prompt', 'false'], ['mergetool.prompt', 'false']]
+
+def checkout_inits(r, n_drawn):
+    """(init, name, scopes whose commands are run) for every kind of checkout other than the plain one"""
+    def E(kind, l, g, al=None, ag=None):
+        return {'cfg': {'local': [list(x) for x in l], 'global': [list(x) for x in g]}, 'att': {'local': al, 'global': ag}, 'attrloc': 'xdg', 'kind': kind}
+    A = ATT_VARIANTS
+    grid = grid_inits()
+    out = []
+    for kind in FILE_KINDS:
+        out += [
+            (E(kind, [], []), 'checkout:%s:local:empty' % kind, ['local']),
+            (E(kind, FOREIGN_CFG, [], A['unrelated']), 'checkout:%s:local:foreign' % kind, ['local']),
+            (E(kind, OWN_CFG, [], A['nbdime']), 'checkout:%s:local:own' % kind, ['local']),
+            (E(kind, [], [], A['unrelated-noeol']), 'checkout:%s:local:noeol' % kind, ['local']),
+            (E(kind, FOREIGN_CFG[:2], [], A['nbdime-diff-only']), 'checkout:%s:local:diff-only' % kind, ['local']),
+            (E(kind, [], [], None, None), 'checkout:%s:global:empty' % kind, ['global']),
+            (E(kind, [], FOREIGN_CFG, None, A['unrelated']), 'checkout:%s:global:foreign' % kind, ['global']),
+            (E(kind, FOREIGN_CFG, OWN_CFG, A['unrelated'], A['nbdime']), 'checkout:%s:both' % kind, SCOPES),
+        ]
+        for _ in range(n_drawn):
+            init, name, sc = r.choice(grid)
+            out.append((dict(copy.deepcopy(init), kind=kind), 'checkout:%s:%s' % (kind, name), [sc]))
+    for kind in NOTREE_KINDS:
+        # a directory that is no repository has no repository configuration; a stray .gitattributes file may lie in either
+        loc = FOREIGN_CFG if kind == 'bare' else []
+        out += [
+            (E(kind, [], []), 'checkout:%s:empty' % kind, SCOPES),
+            (E(kind, loc, FOREIGN_CFG, A['unrelated'], A['unrelated']), 'checkout:%s:foreign' % kind, SCOPES),
+            (E(kind, [], OWN_CFG, None, A['nbdime']), 'checkout:%s:global-own' % kind, SCOPES),
+        ]
+        if kind == 'bare':
+            out.append((E(kind, OWN_CFG, FOREIGN_CFG[:2], None, A['unrelated-noeol']), 'checkout:bare:local-own', SCOPES))
+        for _ in range(max(1, n_drawn // 2)):
+            init, name, sc = r.choice([g for g in grid if g[2] == 'global'])
+            out.append((dict(copy.deepcopy(init), kind=kind), 'checkout:%s:%s' % (kind, name), SCOPES))
+    return out
+
 def single_commands(scopes):
     out = []
     for sc in scopes:
@@ -370,6 +435,21 @@ def gen_cases(chk, tier):
         cases.append(mk_case(r.choice(lpool), [r.choice(toolc) for _ in range(r.choice([2, 3]))], 'lookalike-x-seq'))
     for _ in range(nlsub):
         cases.append(mk_case(r.choice(lpool), [r.choice(toolc) for _ in range(r.choice([1, 2]))], 'lookalike-cli-subprocess', mode='subproc'))
+    # kinds of checkout (drawn after everything else, so that the cases above are the same as without this family)
+    nd, nseq, nksub = (3, 100, 10) if tier == 'quick' else (12, 2000, 60)
+    co = checkout_inits(r, nd)
+    for init, name, scs in co:
+        for c in single_commands(scs):
+            cases.append(mk_case(init, [c], 'checkout-x-1'))
+    kinds = FILE_KINDS + NOTREE_KINDS
+    cpool = {k: [(i, scs) for i, n, scs in co if i['kind'] == k] for k in kinds}
+    for j in range(nseq):
+        init, scs = r.choice(cpool[kinds[j % len(kinds)]])
+        cc = single_commands(scs if r.random() < 0.7 else SCOPES)
+        cases.append(mk_case(init, [r.choice(cc) for _ in range(r.choice([2, 3]))], 'checkout-x-seq'))
+    for j in range(nksub):
+        init, scs = r.choice(cpool[kinds[j % len(kinds)]])
+        cases.append(mk_case(init, [r.choice(single_commands(scs)) for _ in range(r.choice([1, 2]))], 'checkout-cli-subprocess', mode='subproc'))
     return cases
 
 # ------------------------------------------------------------------ T1: the Coq model on the same transitions
@@ -489,10 +569,14 @@ def gen_in_tree_is_current():
         shutil.rmtree(d, ignore_errors=True)
 
 # ------------------------------------------------------------------ shrinking
-def init_from_obs(obs, attrloc):
+def init_from_obs(obs, attrloc, kind='plain'):
     base = ('core.repositoryformatversion', 'core.filemode', 'core.bare', 'core.logallrefupdates', 'core.attributesfile')
-    return {'cfg': {s: [[k, v] for k, v in obs['cfg'][s] if not (k in base)] for s in SCOPES},
+    # what git itself writes into the configuration of a submodule / linked worktree
+    own = (lambda k: False) if kind == 'plain' else (lambda k: k == 'core.worktree' or k.split('.')[0] in ('remote', 'branch', 'submodule', 'extensions'))
+    init = {'cfg': {s: [[k, v] for k, v in obs['cfg'][s] if not (k in base) and not (s == 'local' and own(k))] for s in SCOPES},
             'att': dict(obs['att']), 'attrloc': attrloc}
+    if kind != 'plain': init['kind'] = kind
+    return init
 
 def kinds_of(case, res):
     return [(k, i) for k, i, _ in judge_case(case, res)]
@@ -502,7 +586,7 @@ def minimise(case, res, kind, step):
     attrloc = case['init'].get('attrloc', 'xdg')
     c = case['cmds'][step]
     start = step - 1 if (case.get('probe', {}).get(str(step)) and kind == 'enable-not-idempotent') else step
-    init0 = init_from_obs(res['obs'][start], attrloc)
+    init0 = init_from_obs(res['obs'][start], attrloc, kind_of(case))
     cands_cmd = ([cmd(t, c['enable'], c['scope'], c.get('sd')) for t in TOOLS] if c['tool'] == 'all' else []) + [c]
     def reproduces(cands):
         results = core.run_impl(cands, shards=4, script='c18_runner.py')
@@ -523,6 +607,8 @@ def minimise(case, res, kind, step):
                 ni = copy.deepcopy(init); ni['att'][s] = None; cands.append(mk_case(ni, best['base_cmds'], 'shrink', best['mode']))
         if init.get('attrloc') != 'xdg':
             ni = copy.deepcopy(init); ni['attrloc'] = 'xdg'; cands.append(mk_case(ni, best['base_cmds'], 'shrink', best['mode']))
+        if kind_of(init) != 'plain':
+            ni = copy.deepcopy(init); del ni['kind']; cands.append(mk_case(ni, best['base_cmds'], 'shrink', best['mode']))
         if not cands: break
         nb, nr = reproduces(cands)
         if nb is None: break
@@ -531,7 +617,8 @@ def minimise(case, res, kind, step):
     return best, bres, st
 
 def signature(kind, case, step):
-    return '%s:by=%s' % (kind, case['cmds'][step]['tool'])
+    k = kind_of(case)
+    return '%s:by=%s%s' % (kind, case['cmds'][step]['tool'], '' if k == 'plain' else ':in=' + k)
 
 def public_case(case, step):
     return {'init': case['init'], 'cmds': case['base_cmds'], 'failing_step_of_expanded_sequence': step,
@@ -591,11 +678,14 @@ def run(tier, seed):
                                   '(merge.tool=meld, git-nbmergetool config --disable): swap BLOCK F10 of Props/C18.v')
     # ---- T1
     trans = []; owner = []; index = {}
-    unmodelable = 0
+    unmodelable = 0; outside_space = 0
     for ci, (case, res) in enumerate(zip(cases, results)):
         if 'err' in res: continue
         for i, c in enumerate(case['cmds']):
             B, A = res['obs'][i], res['obs'][i + 1]
+            if not in_space(c, kind_of(case)):
+                # the model states git's behaviour INSIDE a repository with the attributes file at cwd; these are judged by T2 only
+                outside_space += 1; continue
             if not (modelable(B) and modelable(A)):
                 unmodelable += 1; continue
             key = json.dumps([B['cfg'], B['att'], c, res['status'][i] == 'ok', A['cfg'], A['att']], sort_keys=True)
@@ -618,6 +708,9 @@ def run(tier, seed):
             chk.broken_obligation('correspondence:gitcfg', {'init': cases[ci]['init'], 'cmds': [cmd_str(c) for c in cases[ci]['cmds']], 'step': i,
                                                             'before': strip_obs(results[ci]['obs'][i]), 'impl_after': strip_obs(results[ci]['obs'][i + 1]),
                                                             'impl_status': results[ci]['status'][i]})
+    if outside_space:
+        chk.notes.append('%d executions of repository-scope commands in a bare repository / outside any repository were judged on what real git reports only '
+                         '(nothing foreign touched), not compared with the model' % outside_space)
     if unmodelable:
         chk.notes.append('%d transitions outside the model (multi-valued or upper-case keys, unknown config source) were not compared' % unmodelable)
     chk.cov.update({
@@ -625,7 +718,11 @@ def run(tier, seed):
         'rule': 'a case = initial configuration (grid: merge.tool and diff.guitool unset/nbdime/other, prompts unset/true/false, attributes absent/unrelated/unrelated '
                 'without final newline/nbdime lines/diff line only, repository or global scope; plus both-scope and other-attributes-location configurations; '
                 'plus look-alike configurations: merge.tool / diff.guitool naming ANOTHER tool whose name resembles nbdime (nbdime-wrapper, my_nbdime, NBDIME, nbdim, drawn prefix/suffix/case/piece variants), '
-                'in one scope or against nbdime in the other scope, and foreign sections resembling nbdime\'s own (diff.jupyternotebook2, mergetool.nbdime-wrapper, ...)) '
+                'in one scope or against nbdime in the other scope, and foreign sections resembling nbdime\'s own (diff.jupyternotebook2, mergetool.nbdime-wrapper, ...); '
+                'plus kinds of checkout: the same configurations (fixed empty / foreign / nbdime\'s own / unterminated-attributes ones and drawn grid ones) with the commands run in a linked worktree (git worktree add), '
+                'a --separate-git-dir checkout and a submodule -- `.git` is a FILE there and the repository configuration lives elsewhere; model and implementation are compared as for a plain repository -- '
+                'and in a bare repository and a directory that is no repository: there global-scope commands are judged in full (routing observed from an untouched probe repository) and compared with the model, '
+                'repository-scope commands only on "changes nothing outside their own footprint" (exit status, attributes line and routing are not required, the model is not consulted)) '
                 'x a sequence of 1-%d commands of {per driver/tool, config-git} x {enable, disable} x {repo, --global} x {--set-default}, every enable followed by its repetition; '
                 'run through nbdime\'s real main() against real git in a sandbox.  Non-trivial = some command of the sequence changed what git reports; distinct by (configuration, sequence, mode).' % (3 if tier == 'quick' else 4),
         'input_distribution': hist, 'commands_by_kind': by_cmd, 'command_executions': steps,
